@@ -384,7 +384,7 @@ def ref_get(t, r):
         return 200, t[p]
     if not exists(t, p):
         return 404, None
-    return None, None
+    return (403 if r.slash or not p else 301), None   # a collection: no index file, no listing / redirect
 
 
 NAME_OK = re.compile(rb"^[abc]$|^\xc3\xa9$")
